@@ -58,3 +58,14 @@ m = {
 }
 json.dump(m, open(os.path.join(V, 'MANIFEST.json'), 'w'), indent=1, ensure_ascii=False)
 print('MANIFEST.json: %d checks, %d not_applicable' % (len(checks), len(na)))
+# validate against the given schema (fail loudly: an invalid manifest must never be committed)
+try:
+    import subprocess
+    r = subprocess.run(['/opt/veriftools/pyvenv/bin/python3', '-c',
+                        'import json,jsonschema,sys; jsonschema.validate(json.load(open(sys.argv[1])), json.load(open(sys.argv[2]))); print("MANIFEST.json validates against the schema")',
+                        os.path.join(V, 'MANIFEST.json'), '/root/.vp/MANIFEST.schema.json'], capture_output=True, text=True)
+    print((r.stdout + r.stderr).strip()[-600:])
+    if r.returncode != 0:
+        sys.exit(1)
+except FileNotFoundError:
+    pass
